@@ -20,6 +20,7 @@ namespace H
     const char *positive[4]; unsigned n_positive;                              // double lists whose entries the parser requires to be > 0 (delivered under that assumption)
     bool (*u32_hook)(const std::string &, unsigned &);                          // optional: harness-defined answer for an unsigned entry (returns true when it answers)
     bool (*check_hook)(const std::string &, bool &);                            // optional: harness-defined answer of check_entry
+    double last_table[2];                                                      // last values delivered for the "min depth" [0] / "max depth" [1] tables of get(name, points)
     unsigned surface_points;        // get(name, coordinates): number of additional points (0 => constant surface)
     void set_len(const char *k, unsigned n) { lens[n_lens].key = k; lens[n_lens].len = n; ++n_lens; }
     void set_fixed(const char *k, double v) { fixed[n_fixed].key = k; fixed[n_fixed].value = v; ++n_fixed; }
@@ -132,6 +133,7 @@ extern "C" std::pair<std::vector<double>,std::vector<double>> __wrap__ZN12WorldB
 {
   std::pair<std::vector<double>,std::vector<double>> r;
   r.first.push_back(sym_f64(name->c_str()));
+  if (*name == "min depth") H::prm.last_table[0] = r.first[0]; else if (*name == "max depth") H::prm.last_table[1] = r.first[0];
   return r;
 }
 #endif
